@@ -10,6 +10,8 @@ CONSTANTS
   SweepAlphabet = {}
   DecoAlphabet = {}
   BigChoices = {}
+  ZeroChoices = {}
+  ZeroToleranceFallsBack = FALSE
   LaggedRecordedAtSetup = FALSE
   Hyp_NoCap = FALSE
 POSTCONDITION AllConsumed
